@@ -376,12 +376,16 @@ pub fn par_for_each<T: Sync, F: Fn(usize, &T) + Sync>(items: &[T], f: F) {
   let n = nthreads().min(items.len().max(1));
   std::thread::scope(|s| {
     for _ in 0..n {
-      s.spawn(|| loop {
-        let i = next.fetch_add(1, Ordering::Relaxed);
-        if i >= items.len() {
-          break;
+      s.spawn(|| {
+        loop {
+          let i = next.fetch_add(1, Ordering::Relaxed);
+          if i >= items.len() {
+            break;
+          }
+          f(i, &items[i]);
         }
-        f(i, &items[i]);
+        // a worker that has run out of items is idle, not hung: the watchdog must not keep timing its last case
+        crate::crashguard::clear_case();
       });
     }
   });
